@@ -5,7 +5,7 @@ sys.path.insert(0, os.path.dirname(os.path.abspath(__file__)))
 from props import PROPS, NOT_APPLICABLE, LEVEL_TEXT
 
 VERIF = os.path.dirname(os.path.dirname(os.path.abspath(__file__)))
-hooks = subprocess.run(["git", "-C", "/repo", "log", "--format=%H %s", "--grep=^verif"], stdout=subprocess.PIPE, text=True).stdout.strip().splitlines()
+hooks = [h for h in subprocess.run(["git", "-C", "/repo", "log", "--format=%H %s"], stdout=subprocess.PIPE, text=True).stdout.strip().splitlines() if h.split(" ", 1)[1].startswith("verif")]
 all_ids = [json.loads(l)["id"] for l in open(os.path.join(VERIF, "properties.jsonl"))]
 READY = set(open(os.path.join(VERIF, "lib", "ready.txt")).read().split())
 checks = []
